@@ -151,6 +151,8 @@ class Executor:
         self.discharged = 0
         self.back_states = None
         self.templates = []            # template invariants: functions poly -> poly (candidate facts t(v) >= 0)
+        self._cand_cache = {}
+        self.weak_cands = {}           # ADT def -> candidate indices some loop's Houdini run has refuted (not re-tried at merges)
         self.struct_templates = {}     # ADT def -> fn({field name: value}) -> [(guard 0/1 poly | None, poly >= 0)]
         self.no_merge = False          # keep every path separate (used for path-wise summaries)
         self.abstract_defs = set()     # crate bodies deliberately kept abstract (layered proofs)
@@ -1278,10 +1280,15 @@ class Executor:
         if isinstance(v, Agg) and all(isinstance(x, Agg) and len(x.fields) == len(v.fields) for x in vals):
             for i, f in enumerate(v.fields):
                 self.transfer_leaf_facts(ms, f, [x.fields[i] for x in vals], group, depth + 1)
-            if v.kind == "adt" and v.name in self.struct_templates and all(x.name == v.name for x in vals):
+            if v.kind == "adt" and v.name in self.struct_templates and all(x.name == v.name for x in vals) \
+                    and not all(vkey(x) == vkey(vals[0]) for x in vals[1:]):
+                # (a struct no branch has touched keeps the facts of the common prefix)
                 mc = self.struct_cands(v)
                 per = [self.struct_cands(x) for x in vals]
+                weak = self.weak_cands.get(v.name, ())
                 for ti, (g, q) in enumerate(mc):
+                    if ti in weak:
+                        continue
                     if all(ti < len(pc) and self.cand_holds(s_.facts, pc[ti][0], pc[ti][1]) for pc, s_ in zip(per, group)):
                         if g is None:
                             ms.facts.add_fact_ge0(q)
@@ -1359,6 +1366,8 @@ class Executor:
                       "inv", {self.describe_loc(r, p_): v for (r, p_), v in list(inv.items())[:6]})
             new_inv = self.join_invariants(st, new_written, inv, backs, _round, dropped)
             new_tinv = self.template_invariants(st, new_written, backs, tinv)
+            if os.environ.get("AIM_DEBUG_LOOP") == "3" and new_tinv:
+                print("loop", lid.split("::")[-1], "round", _round, "struct-inv", {k[2]: sorted(v) for k, v in new_tinv.items() if k[0] == "S"})
             if new_written == written and new_inv == inv and new_tinv == tinv:
                 stable = True
                 break
@@ -1406,25 +1415,118 @@ class Executor:
             for i, f in enumerate(v.fields):
                 self.struct_leaves(root, path + (("f", i, None),), f, out, depth + 1)
 
+    def struct_sites(self, st, written):
+        """template structs that contain, or are contained in, a written location"""
+        out = []
+        seen = set()
+        for (root, path) in written:
+            for n in range(len(path) + 1):
+                try:
+                    v = self.read(st, root, path[:n])
+                except Undecided:
+                    break
+                if n < len(path):
+                    if isinstance(v, Agg) and v.kind == "adt" and v.name in self.struct_templates:
+                        key = (root, tuple((s_[0], s_[1]) for s_ in path[:n]))
+                        if key not in seen:
+                            seen.add(key)
+                            out.append((root, path[:n], v))
+                else:
+                    sl = []
+                    self.struct_leaves(root, path, v, sl)
+                    for (r, p_, sv) in sl:
+                        key = (r, tuple((s_[0], s_[1]) for s_ in p_))
+                        if key not in seen:
+                            seen.add(key)
+                            out.append((r, p_, sv))
+        return out
+
+    def simp_struct(self, facts, v, depth=0):
+        if isinstance(v, IntV):
+            return IntV(v.bits, v.signed, p=facts.simplify(v.poly()), hint=v.hint)
+        if isinstance(v, BoolV):
+            return BoolV(facts.simplify(v.p))
+        if isinstance(v, Agg) and depth < 2 and v.kind in ("adt", "tuple"):
+            return Agg(v.kind, v.name, v.variant, [self.simp_struct(facts, f, depth + 1) for f in v.fields], v.ty, v.extra)
+        return v
+
+    def mixed_atoms(self, v, out, depth=0):
+        """boolean atoms inside the (merged, if-then-else shaped) scalar fields of a struct"""
+        if isinstance(v, (IntV, BoolV)):
+            pl = v.poly() if isinstance(v, IntV) else v.p
+            if pl.is_atom() is None and (ONE - pl).is_atom() is None:
+                for a in pl.atoms():
+                    if is_bool_atom(a):
+                        out.add(a)
+        elif isinstance(v, Agg) and depth < 2 and v.kind in ("adt", "tuple"):
+            for f in v.fields:
+                self.mixed_atoms(f, out, depth + 1)
+
+    def struct_cases(self, facts, v, limit=24):
+        """un-merge a struct value: the feasible assignments of the boolean atoms its scalar fields
+        are conditional on -> [(facts, specialised struct)]; the value itself if there are too many"""
+        cases = []
+        work = [(facts, self.simp_struct(facts, v))]
+        while work:
+            f0, v0 = work.pop()
+            ats = set()
+            self.mixed_atoms(v0, ats)
+            if not ats:
+                cases.append((f0, v0))
+                if len(cases) > limit:
+                    return [(facts, v)]
+                continue
+            a = sorted(ats, key=repr)[0]
+            for val in (1, 0):
+                f2 = f0.copy()
+                if f2.assume(Poly.atom(a), val):
+                    work.append((f2, self.simp_struct(f2, v0)))
+            if len(work) > 4 * limit:
+                return [(facts, v)]
+        return cases
+
     def cand_holds(self, facts, guard, q):
+        if facts.has_fact(guard, q):
+            return True
         if guard is None:
-            return facts.entails_ge0(facts.simplify(q), 3, 2) is not None
+            qs = facts.simplify(q)
+            lo, hi = qs.range(facts)
+            if hi is not None and hi < 0:
+                return False
+            return facts.entails_ge0(qs, 2, 1, use_eq=True, quick_refute=True) is not None
         g = facts.simplify(guard)
         gv = g.const_value()
         if gv == 0:
             return True
         if gv == 1:
-            return facts.entails_ge0(facts.simplify(q), 3, 2) is not None
-        f2 = facts.copy()
-        if not f2.assume(g, 1):
+            return facts.entails_ge0(facts.simplify(q), 2, 1, use_eq=True, quick_refute=True) is not None
+        # one specialised copy of the facts per guard (kept on the facts object, dropped when it changes)
+        ver = (len(facts.lin), len(facts.known), len(facts.cond), len(facts.other))
+        gc = getattr(facts, "_gcache", None)
+        if gc is None or gc[0] != ver:
+            gc = (ver, {})
+            facts._gcache = gc
+        gk = g.key()
+        if gk not in gc[1]:
+            f2 = facts.copy()
+            gc[1][gk] = f2 if f2.assume(g, 1) else None
+        f2 = gc[1][gk]
+        if f2 is None:
             return True
-        return f2.entails_ge0(f2.simplify(q), 3, 2) is not None
+        return f2.entails_ge0(f2.simplify(q), 2, 1, use_eq=True, quick_refute=True) is not None
 
     def struct_cands(self, v):
-        try:
-            return self.struct_templates[v.name](self.struct_fields(v))
-        except (KeyError, AttributeError, Undecided, TypeError):
-            return []
+        k = vkey(v)
+        c = self._cand_cache.get(k)
+        if c is None:
+            try:
+                c = self.struct_templates[v.name](self.struct_fields(v))
+            except (KeyError, AttributeError, Undecided, TypeError):
+                c = []
+            if len(self._cand_cache) > 4000:
+                self._cand_cache.clear()
+            self._cand_cache[k] = c
+        return c
 
     def template_invariants(self, st, written, backs, prev):
         """Houdini over the template facts: (location key -> set of template indices) that hold at
@@ -1464,36 +1566,56 @@ class Executor:
                         if ok:
                             keep.add(ti)
                     out[key] = frozenset(keep)
-                if self.struct_templates:
-                    sl = []
-                    self.struct_leaves(root, path, v0, sl)
-                    for (r, p, sv) in sl:
-                        key = ("S", r, tuple((s_[0], s_[1]) for s_ in p))
-                        cands0 = self.struct_cands(sv)
-                        idxs = set(range(len(cands0))) if prev is None or key not in prev else set(prev[key])
-                        keep = set()
-                        for ti in idxs:
-                            if ti >= len(cands0):
-                                continue
-                            g, q = cands0[ti]
-                            ok = self.cand_holds(st.facts, g, q)
-                            if ok:
-                                for bs in backs:
-                                    try:
-                                        bv = self.read(bs, r, p)
-                                    except Undecided:
-                                        ok = False
+            if self.struct_templates:
+                case_cache = {}
+                for (r, p, sv) in self.struct_sites(st, written):
+                    key = ("S", r, tuple((s_[0], s_[1]) for s_ in p))
+                    cands0 = self.struct_cands(sv)
+                    idxs = set(range(len(cands0))) if prev is None or key not in prev else set(prev[key])
+                    keep = set()
+                    for ti in idxs:
+                        if ti >= len(cands0):
+                            continue
+                        g, q = cands0[ti]
+                        ok = self.cand_holds(st.facts, g, q)
+                        # Houdini from the top: a site seen for the first time keeps what holds at loop
+                        # entry; the next dry run assumes that set and the back edges prune it. The final
+                        # (stable) round re-checks entry and back edges under exactly the kept set.
+                        if ok and prev is not None and key in prev:
+                            for bs in backs:
+                                try:
+                                    bv = self.read(bs, r, p)
+                                except Undecided:
+                                    ok = False
+                                    break
+                                if not (isinstance(bv, Agg) and bv.name == sv.name):
+                                    ok = False
+                                    break
+                                ck = (id(bs), key)
+                                if ck not in case_cache:
+                                    case_cache[ck] = [(f_, self.struct_cands(v_)) for f_, v_ in self.struct_cases(bs.facts, bv)]
+                                bad = False
+                                for f_, bc in case_cache[ck]:
+                                    if ti >= len(bc) or not self.cand_holds(f_, bc[ti][0], bc[ti][1]):
+                                        bad = True
+                                        if os.environ.get("AIM_DEBUG_LOOP") == "4" and ti < len(bc):
+                                            print("DROPCASE", sv.name.split("::")[-1], ti, "ncases", len(case_cache[ck]), "guard", bc[ti][0], "q", f_.simplify(bc[ti][1]),
+                                                  "\n   lin", [repr(x) for x in f_.lin if x.atoms() & bc[ti][1].atoms()][:14],
+                                                  "\n   cond", [(repr(g_), repr(q_)) for g_, q_ in f_.cond if q_.atoms() & bc[ti][1].atoms()][:8])
                                         break
-                                    if not (isinstance(bv, Agg) and bv.name == sv.name):
-                                        ok = False
-                                        break
-                                    bc = self.struct_cands(bv)
-                                    if ti >= len(bc) or not self.cand_holds(bs.facts, bc[ti][0], bc[ti][1]):
-                                        ok = False
-                                        break
-                            if ok:
-                                keep.add(ti)
-                        out[key] = frozenset(keep)
+                                bc = self.struct_cands(bv)
+                                if bad:
+                                    ok = False
+                                    if os.environ.get("AIM_DEBUG_LOOP") == "4":
+                                        print("DROP", sv.name.split("::")[-1], ti, "guard", bc[ti][0], "q", bc[ti][1], "simp", bs.facts.simplify(bc[ti][1]),
+                                              "\n   lin", [repr(f) for f in bs.facts.lin if f.atoms() & bc[ti][1].atoms()][:12],
+                                              "\n   cond", [(repr(g_), repr(q_)) for g_, q_ in bs.facts.cond][:8])
+                                    break
+                        if ok:
+                            keep.add(ti)
+                        else:
+                            self.weak_cands.setdefault(sv.name, set()).add(ti)
+                    out[key] = frozenset(keep)
         finally:
             self.write_log = saved
         return out
@@ -1628,22 +1750,21 @@ class Executor:
                     for (r, p_, v_) in leaves:
                         for ti in tinv.get((r, tuple((s_[0], s_[1]) for s_ in p_)), ()):
                             st.facts.add_fact_ge0(self.templates[ti](v_.poly()))
-                    if self.struct_templates:
-                        sl = []
-                        try:
-                            self.struct_leaves(root, path, self.read(st, root, path), sl)
-                        except Undecided:
-                            sl = []
-                        for (r, p_, sv) in sl:
-                            keep = tinv.get(("S", r, tuple((s_[0], s_[1]) for s_ in p_)), ())
-                            cands0 = self.struct_cands(sv)
-                            for ti in keep:
-                                if ti < len(cands0):
-                                    g, q = cands0[ti]
-                                    if g is None:
-                                        st.facts.add_fact_ge0(q)
-                                    else:
-                                        st.facts.add_conditional(g, q)
+            finally:
+                self.write_log = saved
+        if tinv and self.struct_templates:
+            saved, self.write_log = self.write_log, None
+            try:
+                for (r, p_, sv) in self.struct_sites(st, [rp for rp in done]):
+                    keep = tinv.get(("S", r, tuple((s_[0], s_[1]) for s_ in p_)), ())
+                    cands0 = self.struct_cands(sv)
+                    for ti in keep:
+                        if ti < len(cands0):
+                            g, q = cands0[ti]
+                            if g is None:
+                                st.facts.add_fact_ge0(q)
+                            else:
+                                st.facts.add_conditional(g, q)
             finally:
                 self.write_log = saved
 
